@@ -111,6 +111,9 @@ def count_local(h, run=None):
         for (a, b2, rl) in ((l, r, rel), (r, l, q.SWAP[rel])):
             if (run is not None and denotes_field(run, h, b2, "limit")) or any(x[0] == "field" and str(x[2]).split("__")[-1] == "limit" for x in walk(b2)) \
                     or any(x[0] == "arg" and x[2] == "limit" for x in walk(b2)):
+                a = strip(a)
+                while a[0] in ("deref", "ref", "copy", "move") and len(a) > 1 and isinstance(a[1], tuple):
+                    a = strip(a[1])          # `limit.is_some_and(|l| count >= l)`: the counter is seen through the closure's `&count`
                 if a[0] in ("phi", "local"):
                     return a[1], bb, rl
     return None, None, None
